@@ -1025,6 +1025,10 @@ MUTANTS = [
 ]
 
 BENIGN = [
+    Benign('whitespace-mapping-as-loop', SGF, _WS, "        for token in ('\\t', '\\r\\n', '\\n\\r', '\\r', '\\n'):\n            cleaned = cleaned.replace(token, ' ')\n"),
+    Benign('collapse-with-compiled-pattern', SGF, "            cleaned = re.sub(r' +', ' ', cleaned)\n", "            spaces = re.compile(r' +')\n            cleaned = spaces.sub(' ', cleaned)\n"),
+    Benign('comparison-as-elif', SGF, "        if not accept_any:\n            # Check for a match to expect\n            if student != expect:\n                return {'ok': False, 'grade_decimal': 0, 'msg': ''}\n        else:",
+           "        if not accept_any and student != expect:\n            return {'ok': False, 'grade_decimal': 0, 'msg': ''}\n        elif accept_any:"),
     Benign('validation-test-by-truthiness', SGF, "            if re.fullmatch(pattern, student) is None:", "            if not re.fullmatch(pattern, student):"),
     Benign('fullmatch-as-grouped-match', SGF, "            if re.fullmatch(pattern, student) is None:", "            if re.match('(?:' + pattern + r')\\Z', student) is None:"),
     Benign('compiled-validator', SGF, "            if re.fullmatch(pattern, student) is None:", "            validator = re.compile(pattern)\n            if validator.fullmatch(student) is None:"),
